@@ -149,7 +149,7 @@ def c12(ck, replay=None):
                 po_trace_cfg(), traces, sig_of=_po_sig_of_reject)
 
     # conformance, Thread flavour under detsched: who runs first after start(), where the thread is at each accessor
-    tscs = PB.gen_scenarios(rnd, 'thread', 12 if thorough else 2, all_first=True)
+    tscs = PB.gen_scenarios(rnd, 'thread', 40 if thorough else 2, all_first=True)
     titems = [{'id': 100000 + i, 'sc': sc, 'seed': rnd.randrange(1 << 30)} for i, sc in enumerate(tscs)]
     out = ck.run_binder('procoutcome', titems, nproc=8, timeout=900, extra={'detsched': True})
     ck.evaluations += int(out.get('n_exec', 0))
